@@ -102,7 +102,8 @@ Proof.
       destruct (ents_get (nents nd) k) as [[d|m]|] eqn:Ek.
       * inversion H; subst. now apply wfgrow_refl.
       * eapply IH; eauto.
-      * unfold alloc_node in H. cbv beta iota zeta in H.
+      * destruct (fixed_D75 && is_true inpl); [inversion H; subst; now apply wfgrow_refl|].
+        unfold alloc_node in H. cbv beta iota zeta in H.
         set (h1 := {| hstor := hstor h; hnodes := hnodes h ++ [mkNode [] false] |}) in *.
         assert (G1 : wfgrow h h1).
         { destruct (wfheap_alloc h (mkNode [] false) W) as [A _]; [intros ? ? []|].
@@ -256,14 +257,9 @@ Proof.
     + destruct (reg s r) as [x|] eqn:Er; [|exact Ws]. destruct (resolve (hp s) x p) as [y|] eqn:Ey; [|exact Ws]. cbn.
       apply wfst_push; auto; [apply wfgrow_refl; apply Ws|]. eapply resolve_wf; [apply Ws| |exact Ey]. eapply reg_wf; eauto.
   - (* in-place *)
-    destruct (is_setu i) eqn:Es.
-    + destruct i; cbn in Es; try discriminate. unfold step; cbv zeta.
-      destruct (reg s r) as [[v0|n]|] eqn:Er; try exact Ws. destruct (reg s v) as [val|] eqn:Ev; [|exact Ws]. cbn.
-      destruct (set_tuple upd_best (hp s) n p val ITrue) as [h' o] eqn:E. cbn. apply wfst_grow; auto.
-      eapply set_tuple_wf; [intros h0 d0 s0 h1 o1; apply update_n_wf|apply Ws|eapply reg_wf; eauto|exact E].
-    + destruct (step_inplace_frame s i Ec Es) as [F R].
-      destruct (step s i) as [s' o]. cbn in *. destruct s' as [h' rs]. cbn in *. subst rs.
-      apply (wfst_grow s h' Ws). apply frame_wfgrow; [apply Ws|exact F].
+    destruct (step_inplace_frame s i Ec) as [F R].
+    destruct (step s i) as [s' o]. cbn in *. destruct s' as [h' rs]. cbn in *. subst rs.
+    apply (wfst_grow s h' Ws). apply frame_wfgrow; [apply Ws|exact F].
   - (* best effort *)
     destruct i; cbn in Ec; try discriminate; try (destruct inpl; discriminate); unfold step; cbv zeta.
     + destruct (reg s r) as [[v0|n]|] eqn:Er; try exact Ws. destruct (reg s v) as [val|] eqn:Ev; [|exact Ws]. cbn.
